@@ -38,6 +38,10 @@ pub fn generate(tier: &str, rng: &mut Rng) -> Vec<Spec> {
             v.push(s);
         } }
     } } }
+    // soak: more samples through one pipe than a 16-bit counter can hold
+    for (tree, kinds) in [("P(L0,L1)", "3,1"), ("B(P(L0,L1),U(L2))", "1,3,2")] {
+        let xs: Vec<i64> = (0..70_000i64).map(|k| (k * 7 + k / 3) % 19 - 9).collect();
+        v.push(Spec::new("filter").with("tree", tree).with("kinds", kinds).with("xs", join(&xs))); }
     v
 }
 pub fn exec(s: &Spec, stats: &mut Stats) -> Outcome {
@@ -59,6 +63,8 @@ pub fn exec(s: &Spec, stats: &mut Stats) -> Outcome {
     if panic { stats.panics += 1; }
     let leaf = |j: usize| format!("(Leaf ({}%nat, {}%nat) {})", kinds[j], j, if kinds[j] == 4 { czlist(&src) } else { "[]".to_string() });
     let lg = log.borrow();
+    // soak runs: the call log would be hundreds of thousands of entries; only its length is reported (as one pair)
+    let logterm = if xs.len() > 5000 { format!("[({}%nat, 0)]", lg.len()) } else { clist(&lg, |(i, x)| format!("({}%nat, {})", i, cz(*x))) };
     Outcome::Case(format!("mk {}%nat {} {} {} {} {} {}", mode, tree.coq(&leaf), czlist(&xs), clist(&ys, |o| copt(o, |z| cz(*z))),
-        clist(&lg, |(i, x)| format!("({}%nat, {})", i, cz(*x))), czlist(&fin), cbool(panic)))
+        logterm, czlist(&fin), cbool(panic)))
 }
